@@ -208,6 +208,7 @@ mutual
     | .prim "CONTRACT" [t] an => (tyOfMich t).map fun t => .CONTRACT t (annotName "default" an)
     -- `SELF %ep` arrives elaborated: the harness writes the type of that entrypoint of the parameter as an argument
     | .prim "SELF" [t] an => (tyOfMich t).map fun t => .SELF (annotName "default" an) t
+    | .prim "PACK" [] _ => some .PACK
     | .prim "TRANSFER_TOKENS" [] _ => some .TRANSFER_TOKENS
     | .prim "SET_DELEGATE" [] _ => some .SET_DELEGATE
     | .prim "EMIT" [t] an => (tyOfMich t).map fun t => .EMIT (annotName "" an) t
@@ -287,6 +288,7 @@ mutual
     | .ADDRESS => .prim "ADDRESS" [] [] | .IMPLICIT_ACCOUNT => .prim "IMPLICIT_ACCOUNT" [] []
     | .CONTRACT t ep => .prim "CONTRACT" [tyToMich t] ["%" ++ uncodes ep]
     | .SELF ep t => .prim "SELF" [tyToMich t] ["%" ++ uncodes ep]
+    | .PACK => .prim "PACK" [] []
     | .TRANSFER_TOKENS => .prim "TRANSFER_TOKENS" [] [] | .SET_DELEGATE => .prim "SET_DELEGATE" [] []
     | .EMIT tag t => .prim "EMIT" [tyToMich t] (if tag.isEmpty then [] else ["%" ++ uncodes tag])
 end
